@@ -66,7 +66,7 @@ class Effects:
                         f = outer_field(ev[3])
                         # calling a non-const method on (a sub-object of) a state field may write it;
                         # accessors returning references are handled through the write they enable
-                        if f and cf["name"] not in ("operator[]", "bits", "cbits", "get", "begin", "end", "count", "empty",
+                        if f and cf["name"] not in ("operator[]", "cbits", "get", "begin", "end", "count", "empty",
                                                     "payload", "first", "next", "operator*", "operator->", "operator bool"):
                             w.add(f)
                     for i, a in enumerate(ev[4] or []):
